@@ -198,7 +198,7 @@ func refersTo(repo *repository, iter descIter, digest ociregistry.Digest) (found
 			if b == nil {
 				break
 			}
-			miter, err := manifestReferences(info.desc.MediaType, b.data)
+			miter, err := manifestReferences(b.mediaType, b.data)
 			if err != nil {
 				retErr = err
 				return false
